@@ -6,6 +6,7 @@
 //! failure is listed in <out-dir>/translate_report.json).
 mod dispatch;
 mod ir;
+mod loraapi;
 mod maccmd;
 mod maccmd_sets;
 mod maccmd_creators;
@@ -269,6 +270,10 @@ fn eval_discr(e: &Expr) -> Option<i128> {
 }
 
 fn translate_unit(repo: &Path, u: &Unit, reg: &mut Registry) -> Res<String> {
+    // builder G: the `LoRa<RK, DLY>` API programs have their own small translator
+    if u.module == "Gen.LoRaApiFn" {
+        return loraapi::translate(repo);
+    }
     reg.io.borrow_mut().unit_io = u.items.iter().any(|s| matches!(s, Sel::IoMode(_)));
     let mut files = vec![];
     let mut file_names: Vec<String> = vec![];
